@@ -109,7 +109,7 @@ func c14RecordTraversal(c *Ctx, f srcFile, r *rand.Rand) traceItem {
 					out.Add(obj{"ev": "abort"})
 					return false
 				}
-				out.Add(obj{"ev": "nil"})
+				out.Add(obj{"ev": "nil", "vis": -1})
 				return true
 			})
 		})
